@@ -15,7 +15,7 @@ def arms(tier):
     lens = range(0, PIPE_SIZE + 1)
     if tier == "quick":
         wl, wn = (0, 3, 5, 7, 8), (0, 1, 3, 4, 5, 9)
-        rl, rn = (0, 1, 5, 8), (0, 1, 4, 9)
+        rl, rn = (0, 1, 5, 7, 8), (0, 1, 4, 9)
     else:
         wl, wn = lens, range(0, 12)
         rl, rn = lens, range(0, 11)
@@ -25,6 +25,10 @@ def arms(tier):
     for l in rl:
         for n in rn:
             out.append(("c14_read_l%d_n%d" % (l, n), "read", l, n))
+    # reads from a pipe whose content wraps around the end of the ring buffer (head advanced by 5)
+    for l in ((5, 8) if tier == "quick" else range(4, PIPE_SIZE + 1)):
+        for n in ((2, 4, 9) if tier == "quick" else range(1, 11)):
+            out.append(("c14_readw_l%d_n%d" % (l, n), "readw", l, n))
     return out
 
 
@@ -55,11 +59,11 @@ def setup(w, name="", tier="thorough", selected=None):
 def harnesses(tier):
     hs = []
     for nm, step, l, n in arms(tier):
-        fn = "yash_env::system::r#virtual::FileBody::poll_" + step
+        fn = "yash_env::system::r#virtual::FileBody::poll_" + step.rstrip("w")
         hs.append(Harness(nm, "pipe holding %d of %d bytes, %s request of %d bytes (PIPE_BUF scaled to %d); byte values, reader and "
                           "writer counts symbolic" % (l, PIPE_SIZE, step, n, PIPE_BUF), [fn],
                           "POSIX pipe rules for one %s: completeness, order, atomicity up to PIPE_BUF, capacity, blocking, wake-ups" % step,
-                          timeout=900, mem_gb=12, mod=M, cover_group="c14_" + step))
+                          timeout=900, mem_gb=12, mod=M, cover_group="c14_" + step.rstrip("w")))
     return hs
 
 
